@@ -270,10 +270,10 @@ package cbreaker
 
 // ---- C09: String() is called by loggers; it reads guarded state ---------------------------------------
 //@ func (*CircuitBreaker).String
-//@   props C09
+//@   props C05 C09 C18
 //@   holds c.m
 //@ func (*ratioController).String
-//@   props C09
+//@   props C05 C09 C12
 //@   holds CircuitBreaker.m
 //@   assume clock_stable
 //@   requires r != nil && r.duration > 0 && r.allowed >= 0 && r.denied >= 0
